@@ -7,15 +7,15 @@
      repaired source (flag on, fixes/C14-om-*.diff) ends in ValueError or families.  The witnesses are evaluated
      with the ASCII instance of the CPython oracles of proofs/OMWitness.v; the same documents are replayed against the
      real code in every run (harness/omgen.py REGRESSION_DOCS).
-   * C14_om_checks_total_partial: for the repaired source, the per-sample stage of the line loop (the checks in front
+   * C14_om_checks_total: for the repaired source, the per-sample stage of the line loop (the checks in front
      of the grouping code, the grouping / timestamp / duplicate bookkeeping, the value and exemplar checks) raises
      nothing but ValueError on every sample that carries a value and labels, for ARBITRARY oracles; the first set of
      checks is what guards the dictionary deletions of the grouping code.
-     PARTIAL: the same statement for the sample readers (_parse_sample, _parse_remaining_text, _parse_nh_sample,
-     _parse_nh_struct, parse_labels), for build_metric / _check_histogram (their KeyError / TypeError /
-     UnboundLocalError branches are unreachable only by invariants of the line loop) and for the fuel of the regex
-     loops is NOT proved; it rests on the correspondence run (all strings up to length 5 over the special alphabet,
-     keyword-fragment products, mutation stream: no disagreement and no non-ValueError outcome). *)
+   The full property - the whole-document function returns families or ValueError for every input string and every
+   oracle, termination included (C14_om_total), with one theorem per reader (_parse_sample, _parse_remaining_text,
+   _parse_nh_sample, _parse_nh_struct, parse_labels in OpenMetrics mode), for _check_histogram / build_metric under
+   the invariants of the line loop, and for the fuel of the regex / scanning loops - is stated in props/C14omt.v
+   (proofs/OMTotal.v); the statement here is one of its ingredients. *)
 From V Require Import lib.PyBase lib.PyStr model.Validation model.Expo model.TextParser model.OMParser
   proofs.OMProofs proofs.OMWitness proofs.OMNhProofs.
 Open Scope N_scope.
@@ -65,7 +65,7 @@ Section C14om.
   Notation pre_checks := (om_pre_checks NUM parse_float num_lt num_eqb num_integral num_zero num_one num_inf).
   Notation group_step := (om_group_step fix_tsmix NUM num_lt num_eqb ts_float).
 
-  Theorem C14_om_checks_total_partial : forall st name s v l,
+  Theorem C14_om_checks_total : forall st name s v l,
     fix_isnan = true -> fix_tsmix = true -> os_value s = Some v -> os_labels s = Some l ->
     only_VE (pre_checks name (st_typ st) s)
     /\ (pre_checks name (st_typ st) s = Ok tt -> only_VE (group_step st name s))
@@ -77,7 +77,7 @@ Section C14om.
     - eapply post_checks_only_VE; eassumption.
   Qed.
 End C14om.
-Print Assumptions C14_om_checks_total_partial.
+Print Assumptions C14_om_checks_total.
 
 (* _compose_deltas never reads its unbound local `elems` (UnboundLocalError): whatever the text of the native-histogram
    value, the dictionary built from re_deltas.findall holds only captures that start with '-' or a \d character, and
